@@ -18,6 +18,10 @@ use std::net::{IpAddr, Ipv4Addr, Ipv6Addr};
 struct ExpFlow {
     src: Option<IpAddr>,
     dst: Option<IpAddr>,
+    /// dual-stack records carry an IPv4 and an IPv6 address for one side: either is "the
+    /// corresponding decoded field"
+    src_alt: Option<IpAddr>,
+    dst_alt: Option<IpAddr>,
     sport: Option<u16>,
     dport: Option<u16>,
     proto: Option<u8>,
@@ -45,6 +49,8 @@ fn project(fields: &[(u16, &[u8])]) -> ExpFlow {
     ExpFlow {
         src: get(8).or(get(27)).and_then(ip_of),
         dst: get(12).or(get(28)).and_then(ip_of),
+        src_alt: if get(8).is_some() { get(27).and_then(ip_of) } else { None },
+        dst_alt: if get(12).is_some() { get(28).and_then(ip_of) } else { None },
         sport: get(7).map(|b| be(b) as u16),
         dport: get(11).map(|b| be(b) as u16),
         proto: get(4).map(|b| b[0]),
@@ -70,8 +76,16 @@ fn cmp_flow(unit: &str, which: Proto, e: &ExpFlow, g: &NetflowCommonFlowSet, fin
             }
         };
     }
-    f!(0, "src_addr", g.src_addr, e.src);
-    f!(1, "dst_addr", g.dst_addr, e.dst);
+    if e.src_alt.is_some() && g.src_addr == e.src_alt {
+        stats[0] += 1;
+    } else {
+        f!(0, "src_addr", g.src_addr, e.src);
+    }
+    if e.dst_alt.is_some() && g.dst_addr == e.dst_alt {
+        stats[2] += 1;
+    } else {
+        f!(1, "dst_addr", g.dst_addr, e.dst);
+    }
     f!(2, "src_port", g.src_port, e.sport);
     f!(3, "dst_port", g.dst_port, e.dport);
     f!(5, "first_seen", g.first_seen, e.first);
@@ -122,6 +136,8 @@ fn expect_flows(p: &Pkt) -> (u16, u32, Vec<ExpFlow>) {
                     last: Some(be(&r[28..32]) as u32),
                     smac: None,
                     dmac: None,
+                    src_alt: None,
+                    dst_alt: None,
                 })
                 .collect();
             (f.version, ts, flows)
@@ -208,6 +224,7 @@ pub fn run_c13(w: &mut W) {
         let mut rng = w.begin_case(idx, "projection");
         let mut cfg = Cfg::default();
         cfg.projected = true;
+        cfg.dual_family = rng.chance(1, 4);
         cfg.count_is_flowsets = true;
         cfg.small_ids = rng.chance(1, 2);
         cfg.max_records = 5;
